@@ -60,9 +60,11 @@ impl DynamicChannelRegion for IN865Region {
                                 }
                             }
                             DR::_7 => DR::_7,
+                            // DR0..=DR4: MIN(DR5, uplink DR - effective offset), where offsets 6
+                            // and 7 have the effective values -1 and -2 (RP002 2.9.7); DR6 is RFU
                             _ => u8::into(core::cmp::min(
                                 tx_dr as u8 + rx1_dr_offset - 5,
-                                DR::_7 as u8,
+                                DR::_5 as u8,
                             )),
                         }
                     }
